@@ -220,7 +220,7 @@ Qed.
 (* with a deduplication upstream: the deduplication goes into a subquery without sort and slice,
    the new projection, the sort and the slice stay outside *)
 Lemma slots_proj_dedup sl cs ps l :
-  slots_wf sl cs → ps ⊆ slots_cols sl cs → op_required (Sort (s_sort sl)) ⊆ ps →
+  slots_wf sl cs → ps ⊆ slots_cols sl cs → op_required (Sort (s_sort sl)) ⊆ slots_cols sl cs →
   slots_sem (Slots (s_sort sl) (Some ps) false (s_slice sl))
             (slots_sem (with_slice (with_sort sl []) (0, None)) l)
   = sem_proj ps (slots_sem sl l).
@@ -230,7 +230,7 @@ Proof.
   rewrite sem_sort_nil. change (sem_slice 0 None ?x) with x.
   rewrite <- sem_slice_proj. f_equal.
   destruct (s_proj sl) as [ps0|].
-  - assert (op_required (Sort (s_sort sl)) ⊆ ps0) by set_solver.
+  - assert (op_required (Sort (s_sort sl)) ⊆ ps0) by exact Hs.
     destruct (s_dedup sl).
     + rewrite <- dedup_sort_commute. rewrite sort_proj_commute by auto. reflexivity.
     + rewrite sort_proj_commute by auto. reflexivity.
@@ -596,17 +596,24 @@ Section RuleProj.
     intros IH Ho H. destruct GP as (G1 & G2 & G3 & G4 & G5 & G6 & G7 & G8). cbn [append_unary_sel S] in H.
     simpl in Ho. pose proof Ho as Ho1. rewrite G6 in Ho1.
     pose proof G5 as (W1 & W2 & W3).
-    destruct (has_sort sl && negb (bool_decide (op_required (Sort (s_sort sl)) ⊆ cs)) && (has_dedup sl || is_chain skip)) eqn:EF.
+    match type of H with (if ?c then _ else _) = _ => destruct c eqn:EF end.
     { (* the sort needs a column the projection drops: keep the query as a subquery (only if sliced) *)
       destruct (has_slice sl) eqn:Es; [|discriminate].
       apply (nest_slots_sound env sl skip tgt Hg (Proj cs) (with_proj no_slots (Some cs)) s' H).
       - unfold slots_wf, slice_ok. simpl. repeat split; try apply empty_subseteq; try exact Ho; try lia.
       - unfold slots_sem. simpl. rewrite sem_sort_nil. reflexivity.
       - reflexivity. }
-    assert (Hsort : (has_dedup sl || is_chain skip) = true → op_required (Sort (s_sort sl)) ⊆ cs).
-    { intros Hdc. rewrite Hdc, andb_true_r in EF. apply andb_false_iff in EF as [E|E].
+    (* otherwise the sort's columns survive where they are needed *)
+    assert (Hsort : has_dedup sl = false → is_chain skip = true → op_required (Sort (s_sort sl)) ⊆ cs).
+    { intros Hd Hc. rewrite Hd, Hc, andb_true_r in EF. apply andb_false_iff in EF as [E|E].
       - unfold has_sort in E. destruct (s_sort sl); [simpl; apply empty_subseteq|discriminate].
       - apply negb_false_iff, bool_decide_eq_true in E. exact E. }
+    assert (Hvis : has_dedup sl = true → op_required (Sort (s_sort sl)) ⊆ slots_cols sl (columns skip)).
+    { intros Hd. rewrite Hd in EF. apply andb_false_iff in EF as [E|E]; [apply andb_false_iff in E as [E|E]|].
+      - unfold has_sort in E. destruct (s_sort sl); [simpl; apply empty_subseteq|discriminate].
+      - apply negb_false_iff, bool_decide_eq_true in E. etransitivity; [exact E|exact Ho1].
+      - apply negb_false_iff, bool_decide_eq_true in E.
+        change (columns (SelM sl skip tgt)) with (columns tgt) in E. rewrite G6 in E. exact E. }
     destruct (has_dedup sl) eqn:Ed.
     - (* deduplication upstream: nested subquery without sort and slice *)
       destruct (apply_skip (with_slice (with_sort sl []) (0, None)) skip) as [sub|] eqn:Esub; cbn [rbind] in H; [|discriminate].
@@ -622,8 +629,7 @@ Section RuleProj.
                     apply good_all_unfold; split; [exact A|exact Hch]].
       + simpl. exact A2.
       + simpl. exact A4.
-      + rewrite Hcsub. split; [|split; [exact Ho1|exact W3]]. cbn [s_sort].
-        etransitivity; [apply Hsort; reflexivity|exact Ho1].
+      + rewrite Hcsub. split; [|split; [exact Ho1|exact W3]]. cbn [s_sort]. apply Hvis. reflexivity.
       + change (sem_tree env sub) with (sem_tree env tgt2). rewrite A8. unfold S. cbn [sem_tree sem_op]. rewrite G8.
         apply (slots_proj_dedup sl (columns skip)); auto.
       + reflexivity.
@@ -648,7 +654,7 @@ Section RuleProj.
         refine (reskip_sound env (Proj cs) S (with_proj sl None) (Bin Chain l' r') s' H _ _ _ _ _ _ _).
         * simpl. repeat split; try tauto; congruence.
         * simpl. tauto.
-        * simpl. rewrite L3. split; [|split; [exact I|exact W3]]. cbn [s_sort with_proj]. apply Hsort. reflexivity.
+        * simpl. rewrite L3. split; [|split; [exact I|exact W3]]. cbn [s_sort with_proj]. apply Hsort; reflexivity.
         * cbn [sem_tree sem_bop]. rewrite L2, R2. unfold S. cbn [sem_tree sem_op]. rewrite G8. cbn [sem_tree sem_bop].
           unfold sem_chain. unfold sem_proj at 1 2. rewrite <- map_app. fold (sem_proj cs).
           unfold slots_sem. cbn [s_sort s_proj s_dedup s_slice with_proj]. unfold has_dedup in Ed. rewrite Ed.
